@@ -150,6 +150,23 @@ def same_state(a, b):
     return set(a) == set(b) and all(a[n] == b[n] or icalref.same_calendar(a[n], b[n]) for n in a)
 
 
+_ETAGS = {}
+
+
+def expected_etag(backend, body):
+    """ETag a put of `body` is answered with when nothing else runs (content hash: independent of the name)."""
+    key = (backend, body)
+    if key not in _ETAGS:
+        d = tempfile.mkdtemp(prefix="xv05e-", dir=env.scratch_root())
+        try:
+            s = open_store(backend, os.path.join(d, "s"), create=True)
+            _ETAGS[key] = s.import_one("probe.ics", "text/calendar", [body])[1]
+            s.repo.close()
+        finally:
+            shutil.rmtree(d, ignore_errors=True)
+    return _ETAGS[key]
+
+
 def build_prior(backend, path):
     s = open_store(backend, path, create=True)
     etags = {}
@@ -183,9 +200,11 @@ def run_schedule(backend, sharing, ops, policy, prior_dir, etags, fine=True):
             return {"harness_error": sc.failed}
         outcomes = {}
         excs = {}
+        answers = {}
         for i, (kind, val) in enumerate(results):
             if kind == "ok":
                 outcomes[i] = "ok"
+                answers[i] = val
             elif kind == "exc":
                 outcomes[i] = outcome_class(val)
                 excs[i] = repr(val)[:200]
@@ -201,8 +220,8 @@ def run_schedule(backend, sharing, ops, policy, prior_dir, etags, fine=True):
                 final[name] = b"".join(fresh.get_file(name).content)
             fresh.repo.close()
         except Exception as e:
-            return {"outcomes": outcomes, "final": None, "torn": f"{type(e).__name__}: {e}", "sched": sc, "excs": excs}
-        return {"outcomes": outcomes, "final": final, "sched": sc, "excs": excs}
+            return {"outcomes": outcomes, "final": None, "torn": f"{type(e).__name__}: {e}", "sched": sc, "excs": excs, "answers": answers}
+        return {"outcomes": outcomes, "final": final, "sched": sc, "excs": excs, "answers": answers}
     finally:
         shutil.rmtree(scratch, ignore_errors=True)
 
@@ -219,6 +238,13 @@ def judge(backend, ops, r):
         # an answer no sequential execution gives
         i = sorted(others)[0]
         return f"violation:unexpected-exception:{others[i]}", f"operation {i} ({ops[i]['k']} {ops[i]['name']}) raised {r['excs'].get(i)}; outcomes {outcomes}"
+    # the answer of a successful put is (name, ETag of the data *it* stored) in every sequential execution
+    for i in active:
+        if outcomes[i] == "ok" and ops[i]["k"] == "put":
+            ans = (r.get("answers") or {}).get(i)
+            want = expected_etag(backend, ops[i]["body"])
+            if ans is not None and (ans[0] != ops[i]["name"] or ans[1] != want):
+                return "violation:answer-of-no-sequential-execution", f"operation {i} (put {ops[i]['name']}) was answered {ans!r}; every sequential execution answers ({ops[i]['name']!r}, {want!r}); outcomes {outcomes}"
     for order in itertools.permutations(active):
         so, sf = serial(ops, order, PRIOR)
         if all(so[k] == outcomes[k] for k in active) and same_state(sf, final):
